@@ -1,5 +1,6 @@
 """C06 - mass, abundance and density of every nuclide are those of the embedded tables."""
 from contracts import density as D
+from contracts import loaders as L
 
 ID = "C06"
 LEVEL = "proof"
@@ -14,7 +15,7 @@ EXPLANATION = ("Closed obligations (eval, exhaustive): every element and isotope
 
 
 def units(tier):
-    return [D.U_DENSITY_EL, D.U_DENSITY_ISO] + D.U_NUMBER_DENSITY + D.U_INTERATOMIC
+    return [D.U_DENSITY_EL, D.U_DENSITY_ISO] + D.U_NUMBER_DENSITY + D.U_INTERATOMIC + L.U_MASS_ABUNDANCE_LOOP
 
 
 def runner_tasks(tier):
